@@ -154,7 +154,7 @@ pub fn run(ctx: &Ctx) -> Outcome {
     hook::install();
     let mut idx = 0u64;
     // ---- capacity sweep
-    let mut caps: Vec<usize> = (0..=ctx.q(1536usize, 4096)).collect();
+    let mut caps: Vec<usize> = (0..=4096usize).collect();
     for k in 11..=20u32 {
         for d in [-1i64, 0, 1] {
             caps.push(((1i64 << k) + d) as usize);
@@ -237,7 +237,7 @@ pub fn run(ctx: &Ctx) -> Outcome {
         }
     }
     // ---- random sequences with the growth monitor
-    let target = ctx.q(150u64, 6000);
+    let target = ctx.q(2500u64, 20000);
     let mut i = 0;
     let mut st = SeqStats::default();
     while i < target && ctx.time_left() {
